@@ -164,9 +164,14 @@ def main(prop, module):
             msg = module.check(payload)
         except _CaseTimeout:
             msg = f"did not terminate within {getattr(module, 'CASE_TIMEOUT_S', 5)} s"
-        except Exception:
+        except Exception as ex:
             msg = None
-            if len(errors) < 3:
+            tb = traceback.extract_tb(ex.__traceback__)
+            lib = [f for f in tb if "/jaqalpaq/" in f.filename]
+            if lib and (tb[-1] in lib or "/jaqalpaq/" in tb[-2].filename if len(tb) > 1 else False):
+                # an exception other than JaqalError escaped from the library itself
+                msg = f"{type(ex).__name__} escaped from {os.path.basename(lib[-1].filename)}:{lib[-1].lineno}: {ex}"
+            elif len(errors) < 3:
                 errors.append({"case": key, "error": traceback.format_exc()[-1200:]})
         finally_ = signal.alarm(0)
         if msg:
